@@ -11,6 +11,7 @@ import (
 	"math/big"
 	"sort"
 	"strings"
+	"sync/atomic"
 )
 
 // Sort of a term.
@@ -43,22 +44,30 @@ type T struct {
 	Args []*T
 	Sort Sort
 	Lit  *big.Int // integer literal (Op == "#int")
-	s    string
+	s    atomic.Pointer[string]
 }
 
+// String prints the term (cached; safe for concurrent use).
 func (t *T) String() string {
-	if t.s != "" {
-		return t.s
+	if p := t.s.Load(); p != nil {
+		return *p
 	}
+	r := t.render()
+	t.s.Store(&r)
+	return r
+}
+
+func (t *T) render() string {
+	var ts string
 	switch {
 	case t.Op == "#int":
 		if t.Lit.Sign() < 0 {
-			t.s = "(- " + new(big.Int).Neg(t.Lit).String() + ")"
+			ts = "(- " + new(big.Int).Neg(t.Lit).String() + ")"
 		} else {
-			t.s = t.Lit.String()
+			ts = t.Lit.String()
 		}
 	case len(t.Args) == 0:
-		t.s = t.Op
+		ts = t.Op
 	default:
 		var sb strings.Builder
 		sb.WriteByte('(')
@@ -72,9 +81,9 @@ func (t *T) String() string {
 			sb.WriteString(a.String())
 		}
 		sb.WriteByte(')')
-		t.s = sb.String()
+		ts = sb.String()
 	}
-	return t.s
+	return ts
 }
 
 func mk(op string, s Sort, args ...*T) *T { return &T{Op: op, Sort: s, Args: args} }
